@@ -240,3 +240,13 @@ META = {
     'reach_required': ['scheduled', 'eviction_put', 'restored_after_eviction',
                        'server_record_edited', 'parsed'],
 }
+
+
+def weight(name, spec):
+    if name.startswith('loader'):
+        return 10
+    if 'replace_server' in name or 'state_0_down' in name:
+        return 5
+    if name.startswith('spelling') or name.startswith('partition'):
+        return 1
+    return 2
